@@ -80,7 +80,13 @@ func ruleJsonKinds(c *core.Ctx) {
 		if r.Kind != "return" || !strings.HasPrefix(r.Tmpl, "VAL:") {
 			continue
 		}
-		mask, err := strconv.Atoi(strings.TrimPrefix(r.Tmpl, "VAL:"))
+		vtxt := strings.TrimPrefix(r.Tmpl, "VAL:")
+		mask, err := strconv.Atoi(vtxt)
+		if err != nil {
+			if k, isConst := sc.Lookup(vtxt).(*types.Const); isConst {
+				mask, err = strconv.Atoi(k.Val().ExactString())
+			}
+		}
 		if err != nil {
 			continue // recursive call for aliases
 		}
